@@ -601,11 +601,14 @@ def sym_float(x=0.0):
     return float(x)
 
 
-def sym_int(x, *a):
-    """replacement for builtins.int inside target modules (Python forbids __int__ returning a non-int)"""
-    if isinstance(x, SR):
-        return x  # values used as ints are constrained integral by the harness
-    return int(x, *a)
+class sym_int(int):
+    """replacement for builtins.int inside target modules (Python forbids __int__ returning a non-int): identity on symbolic values
+    (values used as ints are constrained integral by the harness); a subclass of int, so that it still works as `dtype=int`"""
+
+    def __new__(cls, x=0, *a):
+        if isinstance(x, SR):
+            return x
+        return int(x, *a)
 
 
 def noprint(*a, **k):
